@@ -132,6 +132,18 @@ pub fn run(ctx: &Ctx) -> i32 {
         n: if ctx.quick() { 48 } else { 1000 },
     };
     acc.pool(&typing, "c04lsp", true);
+    if !ctx.quick() {
+        acc.miri(40, 60);
+        acc.asan(&["c04cli", "c04lsp"]);
+        // valgrind memcheck on the release CLI (optimised code paths differ from the ASan dev build)
+        {
+            let _g = crate::drive::sanitize::BinaryOverride::wrapper("valgrind --error-exitcode=99 -q");
+            if let Some(wl) = super::workload("c04cli-vg", &ctx.tier) {
+                let r = acc.pool(wl.as_ref(), "c04cli-vg", true);
+                acc.observed.insert("sanitizer_stage:memcheck".into(), json!({"cases": r.evaluations, "violations": r.violations.len()}));
+            }
+        }
+    }
     acc.finish(
         "exploration",
         "texts: all token sequences of length <=3 over the 51-kind alphabet and <=5 (thorough 6) over a 12-kind alphabet behind three statement prefixes (exhaustive), 18 nesting families at depths up to 200 (valid, unbalanced, mixed), generated programs, token/byte mutants, corpus mutants, arbitrary Unicode with hostile YAML; each through oal_syntax::parse, oal_wasm::compile and the language server's open/load/eval/diagnostics cycle in a worker process (panics caught per entry point, aborts and hangs attributed by the pool); plus load+compile of multi-module exploration cases; non-trivial = a text of more than 2 bytes that is not accepted (the diagnostics path); distinct by text hash",
